@@ -47,15 +47,15 @@ MatrixC01(ev) ==
       \* members an open finding declares irregular are set aside: the regular ones must be
       \* explained by a rank on their own; what only fails with irregular members present is
       \* classified by the finding's model (KnownFindings.tla)
-      irr == IF unexpl = {} THEN {} ELSE {i \in I : Irregular(OpenFindings, ev.eco, S2C(ev.texts[i]))}
+      irr == IF unexpl = {} THEN {} ELSE {i \in I : Irregular(OpenFindings, ev.eco, S2CX(ev.texts[i]))}
       unexplReg == IF irr = {} THEN unexpl
                    ELSE UNION {Unexplained(M, {i \in I \ irr : ev.part[i] = q}) : q \in parts}
-      ikey == IF irr = {} THEN <<>> ELSE TLCEval([i \in I |-> IrrKey(ev.eco, S2C(ev.texts[i]))])
+      ikey == IF irr = {} THEN <<>> ELSE TLCEval([i \in I |-> IrrKey(ev.eco, S2CX(ev.texts[i]))])
       rec(p, why) == [prop |-> "C01", eco |-> ev.eco, why |-> why, a |-> ev.texts[p[1]], b |-> ev.texts[p[2]],
                       got |-> M[p[1]][p[2]], rev |-> M[p[2]][p[1]], model |-> 2, known |-> ""]
       \* drift report (INFO, never a verdict): observed signs against the documented order of DocOrder.tla
-      docI == IF ev.eco \in DocEcos THEN {i \in I : DocScope(ev.eco, S2C(ev.texts[i]))} ELSE {}
-      docK == TLCEval([i \in docI |-> S2C(ev.texts[i])])
+      docI == IF ev.eco \in DocEcos THEN {i \in I : DocScope(ev.eco, S2CX(ev.texts[i]))} ELSE {}
+      docK == TLCEval([i \in docI |-> S2CX(ev.texts[i])])
       docBad == {p \in docI \X docI : DocCmp(ev.eco, docK[p[1]], docK[p[2]]) # M[p[1]][p[2]]}
       docEx == LET q == SetToSeq(docBad) IN [j \in 1..Min2(Len(q), 3) |-> <<ev.texts[q[j][1]], ev.texts[q[j][2]], M[q[j][1]][q[j][2]]>>]
       docOk == ev.eco \notin DocEcos
@@ -317,7 +317,7 @@ SortC07(ev) ==
       \* the order laws are claimed on sets on which the ecosystem's order can be a total preorder at all:
       \* one alpm pkgrel partition, no order-irregular members (KF-alpm-01 / KF-maven-01)
       ordered == (\A i, k \in 1..Len(ev.part) : ev.part[i] = ev.part[k])
-                 /\ \A i \in 1..n : ~OrderIrregular(ev.eco, S2C(ev.items[i]))
+                 /\ \A i \in 1..n : ~OrderIrregular(ev.eco, S2CX(ev.items[i]))
       rec(why, q) == [prop |-> "C07", eco |-> ev.eco, why |-> why, input |-> inOf(ev.perms[q]), output |-> ev.outs[q], known |-> ""] IN
   {rec("output is not the input multiset", q) : q \in {q \in Q : ~okperm(q)}}
   \cup {rec("adjacent output pair out of order", q) : q \in {q \in Q : ordered /\ okperm(q) /\ ~nondecr(q)}}
